@@ -9,11 +9,14 @@ import (
 	"fmt"
 	"hash/fnv"
 	"os"
+	"runtime"
 	"sort"
 	"strconv"
 	"strings"
 	"sync"
+	"sync/atomic"
 	"testing"
+	"time"
 
 	"pgregory.net/rapid"
 )
@@ -59,7 +62,11 @@ type Stats struct {
 	knownHits  map[string]int
 	replay     *ViolationRec
 	t          *testing.T
+	progress   atomic.Int64
 }
+
+// Progress tells the watchdog that the current case is alive.
+func (s *Stats) Progress() { s.progress.Add(1) }
 
 type abandonCase struct{}
 type replayFail struct{ msg string }
@@ -281,7 +288,33 @@ func (s *Stats) Check(t *testing.T, o CheckOpts, prop func(c *Case)) {
 		}()
 		return
 	}
+	// real-time watchdog (outside any bubble): a case that makes no progress for 3 minutes is
+	// a harness hang (e.g. a spin loop at one virtual instant), reported as such
+	stopWD := make(chan struct{})
+	defer close(stopWD)
+	go func() {
+		last, idle := int64(-1), 0
+		for {
+			select {
+			case <-stopWD:
+				return
+			case <-time.After(10 * time.Second):
+			}
+			if n := s.progress.Load(); n != last {
+				last, idle = n, 0
+				continue
+			}
+			idle++
+			if idle >= 18 {
+				buf := make([]byte, 1<<22)
+				n := runtime.Stack(buf, true)
+				fmt.Fprintf(os.Stderr, "WATCHDOG: no progress for 180 s in %s; goroutines:\n%s\n", s.Test, buf[:n])
+				os.Exit(3)
+			}
+		}
+	}()
 	rapid.Check(t, func(rt *rapid.T) {
+		s.progress.Add(1)
 		c := s.newCase(rt)
 		c.Src = &rapidSrc{rt: rt, c: c}
 		if o.Bubble {
